@@ -333,5 +333,7 @@ func TestCheck(t *testing.T) {
 	vlib.RunCases(r, "close-codes", closeCodeSpace(), runCase, false)
 	r.MarkExhaustive("all 65536 close codes")
 	vlib.RunCheck(r, vlib.Check[Case]{Name: "sequences", N: r.Pick(60000, 1500000), Gen: Gen, Run: runCase})
+	vlib.RunCases(r, "path-cells", pathCells(), runPath, true)
+	vlib.RunCheck(r, vlib.Check[PathCase]{Name: "paths", N: r.Pick(600, 12000), Gen: genPath, Run: runPath, Confirm: true, RecordCurrent: true})
 	r.Finish()
 }
